@@ -5,7 +5,9 @@ import (
 	"fmt"
 	"os"
 
+	"filippo.io/age/xverif/props/c01"
 	"filippo.io/age/xverif/props/c02"
+	"filippo.io/age/xverif/props/c05"
 	"filippo.io/age/xverif/props/c07"
 	"filippo.io/age/xverif/props/c08"
 	"filippo.io/age/xverif/props/c09"
@@ -15,7 +17,11 @@ import (
 )
 
 var checks = map[string]func(tier string){
+	"C01": c01.RunC01,
+	"C04": c01.RunC04,
 	"C02": c02.Run,
+	"C05": c05.RunC05,
+	"C06": c05.RunC06,
 	"C07": c07.Run,
 	"C08": c08.Run,
 	"C09": c09.Run,
@@ -25,9 +31,13 @@ var checks = map[string]func(tier string){
 }
 
 func main() {
-	if len(os.Args) < 3 {
+	if len(os.Args) < 3 && !(len(os.Args) == 2 && os.Args[1] == "gen-corpus") {
 		fmt.Fprintln(os.Stderr, "usage: vcheck <ID> <quick|thorough>")
 		os.Exit(2)
+	}
+	if os.Args[1] == "gen-corpus" {
+		c05.GenCorpus()
+		return
 	}
 	id, tier := os.Args[1], os.Args[2]
 	if tier != "quick" && tier != "thorough" {
